@@ -234,7 +234,7 @@ fn group_section(ctx: &Ctx, out: &mut String, rng: &mut rand_chacha::ChaCha20Rng
 
 pub fn run(ctx: &Ctx, rec: &mut Rec, out_path: &str) {
     let nshards = 16usize; // fixed: the transcript must not depend on the machine
-    let scale = ctx.scale(600, 12_000);
+    let scale = ctx.scale(1500, 12_000);
     let shards: std::sync::Mutex<Vec<(usize, String)>> = std::sync::Mutex::new(Vec::new());
     // run the 16 shards on however many workers exist
     par(rec, |w, n, rec| {
